@@ -185,6 +185,18 @@ func c02Bool(v bool) zn.Expr {
 	return zn.Var{Name: "假"}
 }
 
+// cond renders a branch condition as a traced call, so that evaluating a
+// condition that must not be evaluated (a 再如 after the branch that was taken)
+// is observable.
+func (b *c02Builder) cond(v bool) zn.Expr {
+	return zn.Call{Name: "验", Args: []zn.Expr{b.num(), c02Bool(v)}}
+}
+
+var c02Tracer = zn.Func{Name: "验", Params: []string{"K", "V"}, Body: []zn.Stmt{
+	zn.ExprStmt{E: zn.Call{Name: "显示", Args: []zn.Expr{zn.Str{Val: "验"}, zn.Var{Name: "K"}}}},
+	zn.Return{Val: zn.Var{Name: "V"}},
+}}
+
 func (b *c02Builder) trace(args ...zn.Expr) zn.Stmt {
 	return zn.ExprStmt{E: zn.Call{Name: "显示", Args: args}}
 }
@@ -217,10 +229,10 @@ func (b *c02Builder) stmt(n *c02Node) []zn.Stmt {
 	case "C":
 		return []zn.Stmt{zn.Continue{}}
 	case "If":
-		s := zn.If{Cond: c02Bool(n.conds[0]), Then: b.body(n.bodies[0], true)}
+		s := zn.If{Cond: b.cond(n.conds[0]), Then: b.body(n.bodies[0], true)}
 		if len(n.bodies) == 3 {
 			if n.bodies[1] != nil {
-				s.Elifs = []zn.Elif{{Cond: c02Bool(n.conds[1]), Body: b.body(n.bodies[1], true)}}
+				s.Elifs = []zn.Elif{{Cond: b.cond(n.conds[1]), Body: b.body(n.bodies[1], true)}}
 			}
 			s.HasElse = true
 			s.Else = b.body(n.bodies[2], true)
@@ -279,9 +291,9 @@ func c02Make(m int, idx int64, method bool) (*zn.Program, map[string]bool) {
 	b := &c02Builder{feat: map[string]bool{}}
 	if method {
 		f := zn.Func{Name: "F", Body: b.body(sk, true)}
-		return &zn.Program{Body: []zn.Stmt{f, b.trace(zn.Num{Lit: "1000"}), zn.Return{Val: zn.Call{Name: "F"}}}}, b.feat
+		return &zn.Program{Body: []zn.Stmt{c02Tracer, f, b.trace(zn.Num{Lit: "1000"}), zn.Return{Val: zn.Call{Name: "F"}}}}, b.feat
 	}
-	return &zn.Program{Body: b.body(sk, false)}, b.feat
+	return &zn.Program{Body: append([]zn.Stmt{c02Tracer}, b.body(sk, false)...)}, b.feat
 }
 
 func c02Check(m int, idx int64, method bool) (*mc.Failure, *zn.Program) {
